@@ -1029,6 +1029,9 @@ def fam_read(ctx, rng):
             dg_each = [dg_arg] * k
         else:
             dg_each = [float(np.round(rng.uniform(-360, 720), 2)) if rng.random() < 0.8 else float(37 * (i + 1)) for i in range(k)]
+            if rng.random() < 0.35:
+                # per recording, None means "the orientation stored in the file (or 0)"; integers are fine too
+                dg_each = [None if rng.random() < 0.5 else (int(round(v)) if rng.random() < 0.3 else v) for v in dg_each]
             dg_arg = tuple(dg_each) if rng.random() < 0.25 else list(dg_each)
         wanted = [{"fnames": s["fnames"], "kwargs": kw_each[i], "degrees": dg_each[i]} for i, s in enumerate(sets)]
         mismatched = (kwargs_form == "list") != (degrees_form == "list")
